@@ -50,7 +50,7 @@ except NameError:
 
 from .application import Application, NullRoute, RESERVED_ARGS
 from .sinter import inject, get_fb, get_callable_name
-from .render import render_json, AshesRenderFactory
+from .render import render_json, render_json_dev, AshesRenderFactory
 from .static import StaticApplication
 
 
@@ -447,7 +447,10 @@ class MetaApplication(Application):
         self._main_page_render = self._arf('meta_base.html')
         routes = [('/', self.get_main, self.render_main_page_html),
                   ('/clastic_assets/', META_ASSETS_APP),
-                  ('/json/', self.get_main, render_json)]
+                  # dev mode: an object the JSON encoder does not know (e.g. a
+                  # route's render argument) is shown as its repr instead of
+                  # failing the whole view
+                  ('/json/', self.get_main, render_json_dev)]
         for peri in self.peripherals:
             routes.extend(peri.get_extra_routes())
         resources = {'_meta_start_time': datetime.datetime.utcnow(),
